@@ -70,6 +70,7 @@ pub fn generate(seed: u64, index: u64, thorough: bool) -> Scenario {
         faults: vec![],
         sched: gen_sched(&mut rng, parallel, false),
         heap_fill: 0,
+        builder_order: rng.below(6) as u8,
     };
     if rng.chance(0.3) {
         sc.ops.push(Op::Band(Fx(rng.range(0.05, 0.99))));
